@@ -579,6 +579,8 @@ class Runtime:
         self.serial_started = set()
         self.inner_workers = {}           # pool -> next local index
         self.observed_pools = {}          # pool -> ("parallel", k) | ("serial", 1)
+        self.yielded = {}                 # pool -> futures already yielded by as_completed
+        sched.rt = self
         sched.observe = self.observe
         rt = self
 
@@ -643,6 +645,8 @@ class Runtime:
 
     # -- hooks
     def on_lock(self, th, lock):
+        if lock.role == "files":
+            th.nfiles = getattr(th, "nfiles", 0) + 1
         if lock.role == "cbin":
             self.sched.emit(self._wrk(th), 2, th.task)
         elif lock.role == "cbout":
@@ -725,6 +729,7 @@ class Runtime:
             ready = [f for f in pending if f.done()]
             f = ready[s.pick(len(ready))]
             pending.remove(f)
+            self.yielded[p] = self.yielded.get(p, ()) + (f.idx,)
             yield f
 
 
@@ -1059,3 +1064,247 @@ def accepted_prefix(ck, hc, plan, res) -> int:
     import re
     m = re.search(r"=\s*(\d+)", out)
     return int(m.group(1)) if m else -1
+
+
+# --------------------------------------------------------------------------- schedules
+
+def first_chooser(enabled, s):
+    return enabled[0]
+
+
+def pct_chooser(rng, depth=3, horizon=120):
+    """PCT-style: random thread priorities, lowered at `depth` random change points."""
+    prio = {}
+    change = {rng.randrange(horizon) for _ in range(depth)}
+    state = {"n": 0, "low": 0.0}
+
+    def ch(enabled, s):
+        for t in enabled:
+            if t.name not in prio:
+                prio[t.name] = 1.0 + rng.random()
+        best = max(enabled, key=lambda t: prio[t.name])
+        if state["n"] in change:
+            state["low"] -= 1.0
+            prio[best.name] = state["low"]
+            best = max(enabled, key=lambda t: prio[t.name])
+        state["n"] += 1
+        return best
+    return ch
+
+
+def state_key(s: Sched):
+    """Abstract state at a scheduling decision: determines the future behaviour of the run (given the
+    configuration), so (key, choice) pairs already explored need not be explored again."""
+    rt = s.rt
+    ths = tuple((t.name, t.desc, t.npoints, t.task, t.finished, t.notified, getattr(t, "nfiles", 0),
+                 getattr(t, "job", None), t.pool) for t in s.threads)
+    locks = tuple((l.role, l.owner.name if l.owner else None) for l in rt.locks)
+    ex = tuple((e.level, e.pool, tuple(q[0].idx for q in e.queue), tuple(f.state for f in e.futures),
+                e.shutdown_flag, e.busy) for e in rt.executors)
+    conds = tuple(tuple(w.name for w in cnd.waiters) for cnd in rt.conds)
+    return (ths, locks, ex, conds, rt.observe(), tuple(sorted(rt.yielded.items())))
+
+
+def explore(hc, plan, wd, max_runs):
+    """Stateless DFS over scheduler choices with (state key, choice) pruning.  Yields every run; the
+    generator's return value (StopIteration.value) says whether the exploration was exhaustive."""
+    visited = set()
+    stack = [[]]
+    runs = 0
+    while stack:
+        if runs >= max_runs:
+            return False
+        prefix = stack.pop()
+        res = run_coop(hc, plan, wd, replay_chooser(prefix, first_chooser), keyfn=state_key)
+        runs += 1
+        yield res
+        ch, keys, cnt = res["choices"], res["keys"], res["enabled_counts"]
+        for i in range(len(prefix), min(len(ch), len(keys))):
+            if (keys[i], ch[i]) in visited:
+                break
+            visited.add((keys[i], ch[i]))
+            for alt in range(cnt[i]):
+                if alt != ch[i] and (keys[i], alt) not in visited:
+                    visited.add((keys[i], alt))
+                    stack.append(ch[:i] + [alt])
+    return True
+
+
+# --------------------------------------------------------------------------- oracle (the property itself)
+
+def oracle(hc, plan, res) -> list[str]:
+    bad = []
+    so = res["sched_outcome"]
+    if so != "finished":
+        bad.append(f"save does not terminate under this schedule: {so}")
+        bad += res["problems"]
+        return bad
+    bad += res["problems"]
+    any_fail = any(t["cbfail"] or t["wfail"] for t in hc["tensors"])
+    n = len(hc["tensors"])
+    idx = [i for i, _ in res["cb_log"]]
+    if res["outcome"] == "ok":
+        if any_fail:
+            bad.append("a callback / tensor raised but save returned normally (exception lost)")
+        files = {k: v for k, v in res["files"].items() if k != "__dirs__"}
+        ref = {k: v for k, v in plan["files"].items() if k != "__dirs__"}
+        if files != ref:
+            diff = sorted(set(files) ^ set(ref)) or [k for k in ref if files.get(k) != ref[k]]
+            bad.append(f"written files differ from the serial save: {diff}")
+        if res["files"].get("__dirs__"):
+            bad.append(f"directories left behind: {res['files']['__dirs__']}")
+        if sorted(idx) != list(range(n)):
+            bad.append(f"callback not invoked exactly once per tensor: indices {sorted(idx)}")
+    else:
+        if not any_fail:
+            bad.append(f"save raised {res['outcome']} ({res.get('message')}) although nothing fails")
+        if len(set(idx)) != len(idx):
+            bad.append(f"callback invoked twice for a tensor: indices {sorted(idx)}")
+    cap = max(hc["cap"], 1)
+    if res["nbudgets"] and res["max_inflight"] > cap:
+        bad.append(f"budget counter {res['max_inflight']} exceeded the capacity {cap}")
+    mx = max(t["len"] for t in hc["tensors"])
+    if res["max_materialised"] > hc["cap"] + mx:
+        bad.append(f"{res['max_materialised']} bytes materialised at once > budget {hc['cap']} + largest tensor {mx}")
+    return bad
+
+
+# --------------------------------------------------------------------------- generators
+
+def gen_hc(rng, size="small", fail=None):
+    if size == "tiny":
+        n, mw = rng.choice([2, 2, 3]), 2
+    elif size == "small":
+        n, mw = rng.choice([2, 3, 3, 4]), rng.choice([2, 2, 3])
+    else:
+        n, mw = rng.choice([3, 4, 5, 6, 8]), rng.choice([2, 3, 4, 6, 8])
+    cap = rng.choice([1, 2, 3, 4, 6, 8, 12, 1 << 20])
+    lens = [rng.choice([1, 1, 2, 3, 4, 5, 7, 9, 13]) for _ in range(n)]
+    if rng.random() < 0.5:                         # several tensors larger than the budget
+        for i in rng.sample(range(n), k=min(n, 2)):
+            lens[i] = cap + rng.choice([1, 2, 5]) if cap < 100 else lens[i]
+    tensors = []
+    for i in range(n):
+        obj = i
+        if i and rng.random() < 0.25:              # an initializer sharing an earlier tensor object
+            j = rng.randrange(i)
+            obj, lens[i] = tensors[j]["obj"], tensors[j]["len"]
+        ext = tensors[obj]["ext"] if obj != i else rng.random() < 0.2
+        tensors.append({"len": lens[i], "obj": obj, "ext": ext, "cbfail": False, "wfail": False})
+    if fail is None:
+        fail = rng.random() < 0.35
+    if fail:
+        for _ in range(rng.choice([1, 1, 2])):
+            i = rng.randrange(n)
+            if rng.random() < 0.5:
+                tensors[i]["cbfail"] = True
+            else:
+                for t in tensors:
+                    if t["obj"] == tensors[i]["obj"]:
+                        t["wfail"] = True
+    max_shard = None
+    if size != "tiny" and rng.random() < (0.45 if size == "large" else 0.3):
+        max_shard = rng.choice([2, 4, 6, 10, 16])
+    return {"tensors": tensors, "max_workers": mw, "cap": cap, "max_shard": max_shard,
+            "chunk": rng.choice([None, 2, 4]) if any(t["ext"] for t in tensors) else None,
+            "tseed": rng.randrange(1 << 30)}
+
+
+def describe(hc, plan) -> str:
+    return (f"n={len(hc['tensors'])} mw={hc['max_workers']} cap={hc['cap']} shards={len(plan['names'])} "
+            f"serial={plan['serial']} k={plan['k']} fail={any(t['cbfail'] or t['wfail'] for t in hc['tensors'])}")
+
+
+# --------------------------------------------------------------------------- real-thread soak
+
+def soak(hc, plan, workdir, rng, runs) -> list[str]:
+    """The unmodified code with real preemptive threads (real threading / ThreadPoolExecutor); tensors
+    and callback sleep for random sub-millisecond times; the oracle's observations are taken under a lock."""
+    import threading
+    from onnx_ir import external_data as ed
+    bad = []
+    for r in range(runs):
+        wd = os.path.join(workdir, "soak")
+        shutil.rmtree(wd, ignore_errors=True)
+        model, objs = build_model(hc, wd)
+        out = os.path.join(wd, "out")
+        os.makedirs(out)
+        mu = threading.Lock()
+        st = {"in_cb": 0, "mat": 0, "maxmat": 0, "cb": [], "use": {}, "problems": []}
+        delays = [rng.random() * 0.0008 for _ in range(64)]
+        budgets = []
+
+        def hook(tensor, do, st=st, mu=mu, delays=delays):
+            o = tensor._c09_obj
+            with mu:
+                st["use"][o] = st["use"].get(o, 0) + 1
+                if st["use"][o] > 1:
+                    st["problems"].append(f"tensor object {o} used by two threads at once")
+                st["mat"] += tensor._c09_need
+                st["maxmat"] = max(st["maxmat"], st["mat"])
+            try:
+                time.sleep(delays[(o * 7 + len(st["cb"])) % 64])
+                if tensor._c09_wfail:
+                    raise RuntimeError("injected write failure")
+                do()
+            finally:
+                with mu:
+                    st["use"][o] -= 1
+                    st["mat"] -= tensor._c09_need
+        for t in objs.values():
+            t._c09_hook = hook
+        cbfail = {i for i, t in enumerate(hc["tensors"]) if t["cbfail"]}
+
+        def callback(tensor, info, st=st, mu=mu, delays=delays):
+            with mu:
+                st["in_cb"] += 1
+                if st["in_cb"] > 1:
+                    st["problems"].append("two threads inside the callback at once")
+                st["cb"].append(info.index)
+            try:
+                time.sleep(delays[info.index % 64])
+                if info.index in cbfail:
+                    raise RuntimeError("injected callback failure")
+            finally:
+                with mu:
+                    st["in_cb"] -= 1
+        orig_budget = ed._ByteBudget
+
+        class Budget(orig_budget):
+            def __init__(self, capacity):
+                super().__init__(capacity)
+                budgets.append(self)
+        base_threads = threading.active_count()
+        ed._ByteBudget = Budget
+        try:
+            with _chunk(hc):
+                try:
+                    ed.unload_from_model(model, out, "m.data", max_shard_size_bytes=hc["max_shard"],
+                                         callback=callback, max_workers=hc["max_workers"],
+                                         max_in_flight_bytes=hc["cap"])
+                    outcome = "ok"
+                except Exception as e:  # noqa: BLE001
+                    outcome = "raise:" + type(e).__name__
+        finally:
+            ed._ByteBudget = orig_budget
+        with mu:
+            if st["in_cb"] or any(st["use"].values()):
+                st["problems"].append("save returned while a callback / write was running")
+        if threading.active_count() > base_threads:
+            time.sleep(0.05)
+            if threading.active_count() > base_threads:
+                st["problems"].append("worker threads still alive after save returned")
+        for b in budgets:
+            if b._in_flight != 0 or b._oversized_active:
+                st["problems"].append(f"budget not released: in_flight={b._in_flight} oversized={b._oversized_active}")
+        res = {"sched_outcome": "finished", "problems": st["problems"], "outcome": outcome, "message": "",
+               "cb_log": [(i, "?") for i in st["cb"]], "files": _list_files(out), "nbudgets": 0,
+               "max_inflight": 0, "max_materialised": st["maxmat"]}
+        for t in objs.values():
+            t._c09_hook = None
+        shutil.rmtree(wd, ignore_errors=True)
+        b = oracle(hc, plan, res)
+        if b:
+            bad += b
+            break
+    return bad
